@@ -149,7 +149,7 @@ def main(chk):
         states += g.tlc.distinct
         trans += g.tlc.generated
         acts = {e[1]["op"]["n"] for e in g.edges}
-        for a in ("persist", "rollback"):
+        for a in ("persist",) if p[3] == "NextPDict" else ("persist", "rollback"):
             if a not in acts:
                 chk.machinery("vacuous: %s has no %s edge" % (p[3], a))
     graphs = []
